@@ -506,7 +506,9 @@ def shapes_stage():
             res['runs'] += rep['cases']
             res['events'] += rep['checks']
             for f in rep['failures'][:12]:
-                res['violations'].append({'run': 0, 'prop': prop, 'msg': f, 'n': 0, 'faulted': False, 'resur': False,
+                # a failure tagged with another property id belongs to that property (e.g. a reclaimed value whose allocation stays)
+                tag = re.match(r'^"?\[(C\d+)\] ', f)
+                res['violations'].append({'run': 0, 'prop': tag.group(1) if tag else prop, 'msg': f, 'n': 0, 'faulted': False, 'resur': False,
                                           'behaviour': [f], 'signature': mode, 'variant': 'shapes', 'source': 'shapes'})
         # compile probes (C18): a user Drop next to derive(Trace) must be rejected with E0119 unless unsafe_no_drop is given
         probe = os.path.join(VERIF, 'gen', 'dropprobe')
